@@ -46,11 +46,12 @@ CLAIMS = {
              "model on every case). Theorems: no bonus exceeds the value the early exit waits for (all presets), a candidate scan keeps the leftmost maximum and stops only at the "
              "maximum; the optimal matcher's recurrence never scores above the maximum over all alignments (C04_upper_bound: its value is the scheme's value of an alignment the "
              "brute-force specification enumerates; every haystack, needle, window, prefix preference off). For a one-character needle the ASCII matcher returns exactly the maximum over all alignments, at the leftmost best-placed occurrence "
-             "(C04_one_char_optimum_ascii: scan invariant over every haystack; the early exit is sound because no bonus exceeds max_bonus). Upper bound and the one-character optimum are also checked against a brute force over all alignments for small inputs; the lower bound is also an oracle of its own: "
+             "(C04_one_char_optimum_ascii: scan invariant over every haystack; the early exit is sound because no bonus exceeds max_bonus), and so does the code-point matcher "
+             "(C04_one_char_optimum_unicode: substring_match_1_non_ascii behind the non-ASCII prefilter, every haystack and needle character). Upper bound and the one-character optimum are also checked against a brute force over all alignments for small inputs; the lower bound is also an oracle of its own: "
              "implementation score >= the model's recurrence evaluated on the full matrix (every haystack column, no prefilter window) whenever the whole haystack fits the slab."),
     "C05": dict(
         technique="Lean 4 theorems (prefix/postfix/exact decisions in full; occurrence list, trimming helpers, exact_match_impl) + occurrence/anchoring oracle on the implementation",
-        text="Partial proof. Theorems: characterisation of the specification's occurrence list; the code's position(..).unwrap_or(0) trimming equals the whitespace counts unless the "
+        text="Theorems: characterisation of the specification's occurrence list; the code's position(..).unwrap_or(0) trimming equals the whitespace counts unless the "
              "haystack is all whitespace; exact_match_impl succeeds iff lengths agree and the normalized window equals the needle (per representation pair); the prefix, postfix and "
              "exact decisions are full theorems (C05_prefix, C05_postfix, C05_exact: for every configuration, haystack, already-normalized needle and representation pair other than "
              "K1's, the matcher succeeds iff the needle equals the normalized haystack text at the start / at the end / as a whole, leading or trailing haystack whitespace - by the "
@@ -58,7 +59,8 @@ CLAIMS = {
              "unwrap_or(0) skips nothing but a normalized whitespace character can not equal a non-whitespace needle character). The substring statement is a theorem for ASCII haystacks "
              "(C05_substring_ascii: substring_match_ascii succeeds iff the needle occurs contiguously in the normalized haystack and its first reported index is the leftmost "
              "occurrence whose first character earns the highest bonus - acceptance test = occurrence for every prefilter shape the code selects, scan invariant, the specification's "
-             "fold characterised; its one-character instance is C04_one_char_optimum_ascii); for code-point haystacks it is evaluated by the oracle on every case. K1 is a KNOWN-FINDING."),
+             "fold characterised; its one-character instance is C04_one_char_optimum_ascii) and for code-point haystacks (C05_substring_unicode: substring_match_non_ascii behind the "
+             "non-ASCII prefilter, needles of at least two characters, no normalisation hypothesis; the one-character instance is C04_one_char_optimum_unicode). K1 is a KNOWN-FINDING."),
     "C10": dict(
         technique="Lean 4 theorem over all sizes about the translated slab layout + run-time extents hook + overflow-checked correspondence with poisoned slab",
         text="Theorem (all window and needle lengths, both character sizes): the five views MatrixSlab::alloc hands out are inside the slab, pairwise disjoint and aligned; view and layout "
